@@ -393,4 +393,551 @@ theorem assignVal_fr {n : Sizes} {fx : Bool} {g : Grows} {h h' : Heap} {prev v :
       · exact assignMap_fr' hn (Option.some.inj e)
     · exact assignArr_fr hn e
 
+/-! ### setVarWithIndex, unsetElem -/
+
+theorem setIndexedVar_fr {n : Sizes} {g : Grows} {r : Runner} {h h' : Heap} {prev : Var} {name val : Bytes}
+    {k : Int} {list indexes : Slice} (inv : Inv n r h) (ol : Owned n.strs list) (oi : Owned n.ints indexes)
+    (e : setIndexedVar g r h prev name k val list indexes = some h') : HeapFr n h h' := by
+  unfold setIndexedVar at e
+  split at e
+  · cases e; exact HeapFr.refl inv.le
+  · split at e
+    · cases e
+    · next x hx =>
+      have h1 := setIndexedElem_fr (h' := x.1) (l' := x.2.1) (ix' := x.2.2) inv.le ol oi hx
+      exact h1.1.trans (setVar_fr (inv.step h1.1) e)
+
+theorem cloneOrMake_fr {n : Nat} (ms : MapHeap Bytes Bytes) (m : Option Nat) (hn : n ≤ ms.length) :
+    ListFr n ms (cloneOrMake ms m).1 ∧ n ≤ (cloneOrMake ms m).2 := by
+  have h1 := mapClone_fr (n := n) ms m hn
+  unfold cloneOrMake
+  split
+  · next id hid => exact ⟨h1.1, h1.2 id hid⟩
+  · have h2 := mapAlloc_fr (n := n) (mapClone ms m).1 ([] : List (Bytes × Bytes)) h1.1.1
+    exact ⟨h1.1.trans h2.1, h2.2⟩
+
+theorem setVarWithIndex_fr {n : Sizes} {g : Grows} {r : Runner} {h h' : Heap} {prev vr : Var} {name : Bytes}
+    {idx : Idx} (inv : Inv n r h) (e : setVarWithIndex g r h prev name idx vr = some h') : HeapFr n h h' := by
+  unfold setVarWithIndex at e
+  split at e
+  · exact setVar_fr inv e
+  · split at e
+    · have h1 := sliceAppend_fr (n := n.strs) g.strs h.strs Slice.nil prev.str inv.le.1 (Owned.nil _)
+      have f1 := HeapFr.of_strs inv.le h1.1
+      exact f1.trans (setIndexedVar_fr (inv.step f1) h1.2 (Owned.nil _) e)
+    · have h1 := cloneBoth_fr g h prev.list prev.indexes inv.le
+      exact h1.1.trans (setIndexedVar_fr (inv.step h1.1) h1.2.1 h1.2.2 e)
+    · split at e
+      · cases e; exact HeapFr.refl inv.le
+      · have h1 := cloneOrMake_fr (n := n.maps) h.maps prev.map inv.le.2.2.1
+        have key : ∀ f : List (Bytes × Bytes) → List (Bytes × Bytes), HeapFr n h
+            { h with maps := updMap (cloneOrMake h.maps prev.map).1 (cloneOrMake h.maps prev.map).2 f } :=
+          fun f => HeapFr.of_maps inv.le (h1.1.trans (updMap_fr _ f h1.1.1 h1.2))
+        exact (key _).trans (setVar_fr (inv.step (key _)) e)
+    · exact setIndexedVar_fr inv (Owned.nil _) (Owned.nil _) e
+
+theorem unsetElem_fr {n : Sizes} {g : Grows} {r : Runner} {h h' : Heap} {name : Bytes} {sub : Sub}
+    (inv : Inv n r h) (e : unsetElem g r h name sub = some h') : HeapFr n h h' := by
+  unfold unsetElem at e
+  split at e
+  · split at e
+    · exact delVar_fr inv e
+    · split at e
+      · cases e; exact HeapFr.refl inv.le
+      · split at e
+        · cases e
+        · next x hx =>
+          have h1 := cloneBoth_fr g h (lookupVar r h name).list (lookupVar r h name).indexes inv.le
+          have h2 := deleteIndexedElem_fr (h' := x.1) (l' := x.2.1) (ix' := x.2.2) h1.1.le h1.2.1 h1.2.2 hx
+          have f := h1.1.trans h2.1
+          exact f.trans (setVar_fr (inv.step f) e)
+  · split at e
+    · exact delVar_fr inv e
+    · have h1 := mapClone_fr (n := n.maps) h.maps (lookupVar r h name).map inv.le.2.2.1
+      have key : ∀ k' : Int, ListFr n.maps h.maps
+          (match (mapClone h.maps (lookupVar r h name).map).2 with
+           | some id => updMap (mapClone h.maps (lookupVar r h name).map).1 id (fun mm => aerase mm (intText k'))
+           | none => (mapClone h.maps (lookupVar r h name).map).1) := by
+        intro k'
+        split
+        · next id hid => exact h1.1.trans (updMap_fr _ _ h1.1.1 (h1.2 id hid))
+        · exact h1.1
+      exact (HeapFr.of_maps inv.le (key _)).trans (setVar_fr (inv.step (HeapFr.of_maps inv.le (key _))) e)
+  · split at e
+    · exact delVar_fr inv e
+    · cases e; exact HeapFr.refl inv.le
+  · cases e; exact HeapFr.refl inv.le
+
+/-! ### step -/
+
+theorem Inv.runner {n : Sizes} {r r' : Runner} {h : Heap} (inv : Inv n r h) (h1 : r'.env = r.env)
+    (h2 : r'.frames = r.frames) (h3 : r'.funcs = r.funcs) (h4 : r'.alias = r.alias)
+    (h5 : r'.dirStack = r.dirStack) : Inv n r' h :=
+  ⟨inv.le, h1 ▸ inv.env, inv.sc, h2 ▸ inv.frames, h3 ▸ inv.funcs, h4 ▸ inv.alias, h5 ▸ inv.ds⟩
+
+theorem changeDir_fr {n : Sizes} {r : Runner} {h : Heap} {dir : Bytes} {x : Heap × Runner} (inv : Inv n r h)
+    (e : changeDir r h dir = some x) : HeapFr n h x.1 ∧ x.2 = { r with dir := dir } := by
+  unfold changeDir at e
+  have inv' : Inv n { r with dir := dir } h := inv.runner rfl rfl rfl rfl rfl
+  split at e
+  · cases e
+  · next h1 e1 =>
+    have f1 := setVarString_fr inv' e1
+    split at e
+    · cases e
+    · next h2 e2 =>
+      cases e
+      exact ⟨f1.trans (setVarString_fr (inv'.step f1) e2), rfl⟩
+
+theorem swapTop_fr {n : Sizes} {h h' : Heap} {ds : Slice} (hn : n.le h) (o : Owned n.strs ds)
+    (e : swapTop h ds = some h') : HeapFr n h h' := by
+  unfold swapTop at e
+  split at e
+  · split at e
+    · cases e
+    · next s1 e1 =>
+      split at e
+      · cases e
+      · next s2 e2 =>
+        cases e
+        have f1 := sliceSet_fr hn.1 o e1
+        exact HeapFr.of_strs hn (f1.trans (sliceSet_fr f1.1 o e2))
+  · cases e
+
+theorem mapOrMake_fr {ν : Type} {n : Nat} (ms : MapHeap Bytes ν) (m : Option Nat) (hn : n ≤ ms.length)
+    (hm : ∀ id, m = some id → n ≤ id) : ListFr n ms (mapOrMake ms m).1 ∧ n ≤ (mapOrMake ms m).2 := by
+  cases m with
+  | none => exact mapAlloc_fr ms [] hn
+  | some id => exact ⟨ListFr.refl hn, hm id rfl⟩
+
+theorem HeapFr.push_scope {n : Sizes} {h : Heap} {s : ArrHeap Bytes} {o : Scope} {p : Nat} (hn : n.le h)
+    (fs : ListFr n.strs h.strs s) (hp : o.parent = .ov p) (hnp : n.scopes ≤ p) :
+    HeapFr n h { h with strs := s, scopes := h.scopes ++ [o] } := by
+  refine ⟨fs, .refl hn.2.1, .refl hn.2.2.1, listFr_append _ _ hn.2.2.2.1, .refl hn.2.2.2.2.1,
+    .refl hn.2.2.2.2.2, ?_⟩
+  intro inv id o' hid ho' hf
+  by_cases hlt : id < h.scopes.length
+  · rw [List.getElem?_append_left hlt] at ho'
+    exact inv id o' hid ho' hf
+  · have hge : h.scopes.length ≤ id := Nat.le_of_not_lt hlt
+    rw [List.getElem?_append_right hge] at ho'
+    cases hi : id - h.scopes.length with
+    | zero =>
+      rw [hi] at ho'
+      simp only [List.getElem?_cons_zero, Option.some.injEq] at ho'
+      subst ho'
+      exact ⟨p, hp, hnp⟩
+    | succ k =>
+      rw [hi] at ho'
+      simp at ho'
+
+theorem step_inv {n : Sizes} {fx : Bool} {g : Grows} {h : Heap} {r : Runner} {op : Op} {x : Heap × Runner}
+    (inv : Inv n r h) (safe : fx = true ∨ AppendSafe n r h op) (e : step fx g h r op = some x) :
+    HeapFr n h x.1 ∧ Inv n x.2 x.1 := by
+  cases op with
+  | assign name idx append rhs =>
+    simp only [step] at e
+    split at e
+    · cases e
+    · next a ha =>
+      split at e
+      · cases e
+      · next h' hh =>
+        cases e
+        have f1 : HeapFr n h a.1 := by
+          refine assignVal_fr (h' := a.1) (v := a.2) inv.le ?_ ha
+          rcases safe with hfx | hs
+          · exact Or.inl hfx
+          · refine Or.inr ?_
+            intro happ hstr hk
+            obtain ⟨s, rfl⟩ := hstr
+            subst happ
+            exact hs (lookupVar r h name) rfl hk
+        have f2 := setVarWithIndex_fr (inv.step f1) hh
+        exact ⟨f1.trans f2, inv.step (f1.trans f2)⟩
+  | decl v xx ro gl vt name naked append rhs =>
+    simp only [step] at e
+    split at e
+    · cases e; exact ⟨HeapFr.refl inv.le, inv⟩
+    · next hloc =>
+      split at e
+      · cases e
+      · next a ha =>
+        split at e
+        · cases e
+        · next h' hh =>
+          cases e
+          have f1 : HeapFr n h a.1 := by
+            split at ha
+            · cases ha; exact HeapFr.refl inv.le
+            · next hnk =>
+              refine assignVal_fr (h' := a.1) (v := a.2) inv.le ?_ ha
+              rcases safe with hfx | hs
+              · exact Or.inl hfx
+              · refine Or.inr ?_
+                intro happ hstr hk
+                obtain ⟨s, rfl⟩ := hstr
+                subst happ
+                have hnk' : naked = false := by simpa using hnk
+                subst hnk'
+                refine hs (lookupVar r h name) ?_ hk
+                simp only [appendTarget]
+                rw [if_neg hloc]
+          have f2 := setVar_fr (inv.step f1) hh
+          exact ⟨f1.trans f2, inv.step (f1.trans f2)⟩
+  | unset mode name sub =>
+    simp only [step] at e
+    split at e
+    · split at e
+      · split at e
+        · cases e
+        · next h' hh => cases e; exact ⟨unsetElem_fr inv hh, inv.step (unsetElem_fr inv hh)⟩
+      · cases e; exact ⟨HeapFr.refl inv.le, inv⟩
+    · split at e
+      · split at e
+        · cases e
+        · next h' hh => cases e; exact ⟨delVar_fr inv hh, inv.step (delVar_fr inv hh)⟩
+      · split at e
+        · next id hid =>
+          split at e
+          · cases e
+            have f := HeapFr.of_fmaps inv.le (updMap_fr h.fmaps (fun m => aerase m name) inv.le.2.2.2.2.1 (inv.funcs id hid))
+            exact ⟨f, inv.step f⟩
+          · cases e; exact ⟨HeapFr.refl inv.le, inv⟩
+        · cases e; exact ⟨HeapFr.refl inv.le, inv⟩
+  | readArr name vals =>
+    simp only [step] at e
+    split at e
+    · cases e
+    · next h' hh =>
+      cases e
+      have f1 : HeapFr n h { h with strs := if vals.isEmpty then h.strs else (sliceMake h.strs vals vals.length).1 } := by
+        refine HeapFr.of_strs inv.le ?_
+        split
+        · exact ListFr.refl inv.le.1
+        · exact (sliceMake_fr h.strs vals vals.length inv.le.1).1
+      have f2 := setVar_fr (inv.step f1) hh
+      exact ⟨f1.trans f2, inv.step (f1.trans f2)⟩
+  | setStr name val =>
+    simp only [step] at e
+    split at e
+    · cases e
+    · next h' hh => cases e; exact ⟨setVarString_fr inv hh, inv.step (setVarString_fr inv hh)⟩
+  | mapfile name vals =>
+    simp only [step] at e
+    split at e
+    · cases e
+    · next h' hh =>
+      cases e
+      have f1 := HeapFr.of_strs inv.le (sliceAppendList_fr g.strs vals h.strs Slice.nil inv.le.1 (Owned.nil _)).1
+      have f2 := setVar_fr (inv.step f1) hh
+      exact ⟨f1.trans f2, inv.step (f1.trans f2)⟩
+  | shift k =>
+    simp only [step] at e
+    split at e
+    · cases e; exact ⟨HeapFr.refl inv.le, inv.runner rfl rfl rfl rfl rfl⟩
+    · split at e
+      · cases e
+      · split at e
+        · cases e
+        · cases e; exact ⟨HeapFr.refl inv.le, inv.runner rfl rfl rfl rfl rfl⟩
+  | setParams args =>
+    simp only [step] at e
+    cases e
+    have f := HeapFr.of_strs inv.le (sliceMake_fr h.strs args args.length inv.le.1).1
+    exact ⟨f, (inv.step f).runner rfl rfl rfl rfl rfl⟩
+  | cd dir =>
+    simp only [step] at e
+    have := changeDir_fr inv e
+    refine ⟨this.1, ?_⟩
+    rw [this.2]
+    exact (inv.step this.1).runner rfl rfl rfl rfl rfl
+  | pushd dir =>
+    simp only [step] at e
+    split at e
+    · cases e
+    · next y hy =>
+      cases e
+      have c := changeDir_fr inv hy
+      have inv1 : Inv n y.2 y.1 := by rw [c.2]; exact (inv.step c.1).runner rfl rfl rfl rfl rfl
+      have a := sliceAppend_fr g.strs y.1.strs y.2.dirStack y.2.dir inv1.le.1 inv1.ds
+      have f2 := HeapFr.of_strs inv1.le a.1
+      exact ⟨c.1.trans f2, ⟨f2.le, inv1.env, f2.sc inv1.sc, inv1.frames, inv1.funcs, inv1.alias, a.2⟩⟩
+  | pushdSwap =>
+    simp only [step] at e
+    split at e
+    · cases e; exact ⟨HeapFr.refl inv.le, inv⟩
+    · split at e
+      · cases e
+      · split at e
+        · cases e
+        · next h1 hs =>
+          have f1 := swapTop_fr inv.le inv.ds hs
+          have c := changeDir_fr (inv.step f1) e
+          refine ⟨f1.trans c.1, ?_⟩
+          rw [c.2]
+          exact ((inv.step f1).step c.1).runner rfl rfl rfl rfl rfl
+  | popd =>
+    simp only [step] at e
+    split at e
+    · cases e; exact ⟨HeapFr.refl inv.le, inv⟩
+    · split at e
+      · cases e
+      · next ds hds =>
+        split at e
+        · cases e
+        · have inv1 : Inv n { r with dirStack := ds } h :=
+            ⟨inv.le, inv.env, inv.sc, inv.frames, inv.funcs, inv.alias, sliceTo_owned inv.ds hds⟩
+          have c := changeDir_fr inv1 e
+          refine ⟨c.1, ?_⟩
+          rw [c.2]
+          exact (inv1.step c.1).runner rfl rfl rfl rfl rfl
+  | setOpt i v =>
+    simp only [step] at e
+    cases e; exact ⟨HeapFr.refl inv.le, inv.runner rfl rfl rfl rfl rfl⟩
+  | alias name words blank =>
+    simp only [step] at e
+    cases e
+    have m := mapOrMake_fr (n := n.amaps) h.amaps r.alias inv.le.2.2.2.2.2 inv.alias
+    have f := HeapFr.of_amaps inv.le (m.1.trans (updMap_fr _ (fun mm => aset mm name (words, blank)) m.1.1 m.2))
+    refine ⟨f, ⟨f.le, inv.env, f.sc inv.sc, inv.frames, inv.funcs, ?_, inv.ds⟩⟩
+    intro id hid; cases hid; exact m.2
+  | unalias name =>
+    simp only [step] at e
+    split at e
+    · next id hid =>
+      cases e
+      have f := HeapFr.of_amaps inv.le (updMap_fr h.amaps (fun m => aerase m name) inv.le.2.2.2.2.2 (inv.alias id hid))
+      exact ⟨f, inv.step f⟩
+    · cases e; exact ⟨HeapFr.refl inv.le, inv⟩
+  | funcDef name body =>
+    simp only [step] at e
+    cases e
+    have m := mapOrMake_fr (n := n.fmaps) h.fmaps r.funcs inv.le.2.2.2.2.1 inv.funcs
+    have f := HeapFr.of_fmaps inv.le (m.1.trans (updMap_fr _ (fun mm => aset mm name body) m.1.1 m.2))
+    refine ⟨f, ⟨f.le, inv.env, f.sc inv.sc, inv.frames, ?_, inv.alias, inv.ds⟩⟩
+    intro id hid; cases hid; exact m.2
+  | pushFunc params =>
+    simp only [step] at e
+    cases e
+    have f := HeapFr.push_scope (o := { parent := .ov r.env, funcScope := true }) inv.le
+      (sliceMake_fr h.strs params params.length inv.le.1).1 rfl inv.env
+    refine ⟨f, ⟨f.le, inv.le.2.2.2.1, f.sc inv.sc, ?_, inv.funcs, inv.alias, inv.ds⟩⟩
+    intro fr hfr
+    cases hfr with
+    | head => exact inv.env
+    | tail _ hm => exact inv.frames fr hm
+  | popFunc =>
+    simp only [step] at e
+    split at e
+    · cases e; exact ⟨HeapFr.refl inv.le, inv⟩
+    · next f rest hfr =>
+      cases e
+      refine ⟨HeapFr.refl inv.le, ⟨inv.le, ?_, inv.sc, ?_, inv.funcs, inv.alias, inv.ds⟩⟩
+      · exact inv.frames f (by rw [hfr]; exact List.mem_cons_self)
+      · intro f' hf'; exact inv.frames f' (by rw [hfr]; exact List.mem_cons_of_mem _ hf')
+
+/-! ### run, subshell -/
+
+theorem run_inv {n : Sizes} {fx : Bool} {g : Grows} (ops : List Op) :
+    ∀ {h : Heap} {r : Runner} {x : Heap × Runner}, Inv n r h →
+      (fx = true ∨ (fx = false ∧ SafeRun n g h r ops)) → run fx g h r ops = some x →
+      HeapFr n h x.1 ∧ Inv n x.2 x.1 := by
+  induction ops with
+  | nil =>
+    intro h r x inv _ e
+    simp only [run] at e
+    cases e; exact ⟨HeapFr.refl inv.le, inv⟩
+  | cons op ops ih =>
+    intro h r x inv safe e
+    simp only [run] at e
+    split at e
+    · cases e
+    · next y hy =>
+      have s1 : fx = true ∨ AppendSafe n r h op := by
+        rcases safe with hfx | ⟨_, hs⟩
+        · exact Or.inl hfx
+        · exact Or.inr hs.1
+      have h1 := step_inv inv s1 hy
+      have s2 : fx = true ∨ (fx = false ∧ SafeRun n g y.1 y.2 ops) := by
+        rcases safe with hfx | ⟨hf, hs⟩
+        · exact Or.inl hfx
+        · refine Or.inr ⟨hf, ?_⟩
+          have hs2 := hs.2
+          subst hf
+          rw [hy] at hs2
+          exact hs2
+      have h2 := ih h1.2 s2 e
+      exact ⟨h1.1.trans h2.1, h2.2⟩
+
+theorem scopeInv_of_length {scopes : List Scope} : ScopeInv scopes.length scopes := by
+  intro id o hid ho _
+  rw [List.getElem?_eq_none hid] at ho
+  cases ho
+
+theorem scopeInv_append_plain {n : Nat} {scopes : List Scope} {o : Scope} (inv : ScopeInv n scopes)
+    (hf : o.funcScope = false) : ScopeInv n (scopes ++ [o]) := by
+  intro id o' hid ho' hf'
+  by_cases hlt : id < scopes.length
+  · rw [List.getElem?_append_left hlt] at ho'
+    exact inv id o' hid ho' hf'
+  · have hge : scopes.length ≤ id := Nat.le_of_not_lt hlt
+    rw [List.getElem?_append_right hge] at ho'
+    cases hi : id - scopes.length with
+    | zero =>
+      rw [hi] at ho'
+      simp only [List.getElem?_cons_zero, Option.some.injEq] at ho'
+      subst ho'
+      rw [hf] at hf'; cases hf'
+    | succ k =>
+      rw [hi] at ho'
+      simp at ho'
+
+theorem foldSet_spec {n : Nat} (base : List (Bytes × Bytes)) (id : Nat) (hid : n ≤ id)
+    (all : List (Bytes × Var)) :
+    ∀ {sc0 sc' : List Scope}, n ≤ sc0.length → ScopeInv n sc0 →
+      all.foldl (fun acc nv => acc.bind fun sc => envSet base (fuelOf sc) sc id nv.1 nv.2) (some sc0) = some sc' →
+      ListFr n sc0 sc' ∧ ScopeInv n sc' := by
+  induction all with
+  | nil =>
+    intro sc0 sc' hn inv e
+    simp only [List.foldl_nil, Option.some.injEq] at e
+    subst e
+    exact ⟨ListFr.refl hn, inv⟩
+  | cons nv rest ih =>
+    intro sc0 sc' hn inv e
+    simp only [List.foldl_cons, Option.bind_some] at e
+    cases h1 : envSet base (fuelOf sc0) sc0 id nv.1 nv.2 with
+    | none =>
+      rw [h1] at e
+      have : ∀ l : List (Bytes × Var),
+          l.foldl (fun acc nv => acc.bind fun sc => envSet base (fuelOf sc) sc id nv.1 nv.2) none = none := by
+        intro l; induction l with
+        | nil => rfl
+        | cons a l ihl => simp only [List.foldl_cons, Option.bind_none]; exact ihl
+      rw [this] at e; cases e
+    | some sc1 =>
+      rw [h1] at e
+      have s1 := envSet_spec base _ hn inv hid h1
+      have s2 := ih s1.1.1 (s1.2.scopeInv inv) e
+      exact ⟨s1.1.trans s2.1, s2.2⟩
+
+theorem newOverlay_spec {base : List (Bytes × Bytes)} {scopes : List Scope} {parent : Nat} {bg : Bool}
+    {e : List Scope × Nat} (h : newOverlay base scopes parent bg = some e) :
+    ListFr scopes.length scopes e.1 ∧ ScopeInv scopes.length e.1 ∧ scopes.length ≤ e.2 := by
+  unfold newOverlay at h
+  simp only at h
+  split at h
+  · cases h
+    exact ⟨listFr_append _ _ (Nat.le_refl _), scopeInv_append_plain scopeInv_of_length rfl, Nat.le_refl _⟩
+  · cases hf : (envEach base scopes (fuelOf scopes) (.ov parent)).foldl
+        (fun acc nv => acc.bind fun sc => envSet base (fuelOf sc) sc scopes.length nv.1 nv.2)
+        (some (scopes ++ [{ parent := .nil }])) with
+    | none => rw [hf] at h; cases h
+    | some sc' =>
+      rw [hf] at h
+      cases h
+      have l0 : ListFr scopes.length scopes (scopes ++ [({ parent := .nil } : Scope)]) :=
+        listFr_append _ _ (Nat.le_refl _)
+      have s := foldSet_spec (n := scopes.length) base scopes.length (Nat.le_refl _) _ l0.1
+        (scopeInv_append_plain scopeInv_of_length rfl) hf
+      exact ⟨l0.trans s.1, s.2, Nat.le_refl _⟩
+
+theorem copyDirStack_fr {n : Nat} (g : Grows) (strs : ArrHeap Bytes) (ds : Slice) (hn : n ≤ strs.length) :
+    ListFr n strs (copyDirStack g strs ds).1 ∧ Owned n (copyDirStack g strs ds).2 := by
+  unfold copyDirStack
+  have m := sliceMake_fr (n := n) strs ([] : List Bytes) 1 hn
+  have o : Owned n { (sliceMake strs ([] : List Bytes) 1).2 with len := 0 } := by
+    rcases m.2 with ⟨_, hc⟩ | ha
+    · exact Or.inl ⟨rfl, hc⟩
+    · exact Or.inr ha
+  have a := sliceAppendMany_fr g.strs (sliceMake strs ([] : List Bytes) 1).1 _ (cells strs ds) m.1.1 o
+  exact ⟨m.1.trans a.1, a.2⟩
+
+/-- Creating the subshell touches nothing that exists, and the child satisfies the invariant. -/
+theorem subshell_inv {g : Grows} {h : Heap} {p : Runner} {bg : Bool} {c : Heap × Runner}
+    (e : subshell g h p bg = some c) : HeapFr h.sizes h c.1 ∧ Inv h.sizes c.2 c.1 := by
+  unfold subshell at e
+  split at e
+  · cases e
+  · next ov hov =>
+    cases e
+    have o := newOverlay_spec hov
+    have d := copyDirStack_fr (n := h.strs.length) g h.strs p.dirStack (Nat.le_refl _)
+    have fm := mapClone_fr (n := h.fmaps.length) h.fmaps p.funcs (Nat.le_refl _)
+    have am := mapClone_fr (n := h.amaps.length) h.amaps p.alias (Nat.le_refl _)
+    have fr : HeapFr h.sizes h ⟨(copyDirStack g h.strs p.dirStack).1, h.ints, h.maps, ov.1,
+        (mapClone h.fmaps p.funcs).1, (mapClone h.amaps p.alias).1⟩ :=
+      ⟨d.1, ListFr.refl (Nat.le_refl _), ListFr.refl (Nat.le_refl _), o.1, fm.1, am.1, fun _ => o.2.1⟩
+    exact ⟨fr, ⟨fr.le, o.2.2, o.2.1, (by intro f hf; cases hf), fm.2, am.2, d.2⟩⟩
+
+/-! ### The observation only reads what existed -/
+
+theorem obsVar_congr {n : Sizes} {h h' : Heap} (fr : HeapFr n h h') (hn : n = h.sizes) (nv : Bytes × Var)
+    (vin : VarIn h nv.2) : obsVar h' nv = obsVar h nv := by
+  subst hn
+  unfold obsVar
+  have e1 := cells_fr nv.2.list fr.strs vin.1
+  have e2 := cells_fr nv.2.indexes fr.ints vin.2.1
+  have e3 : nv.2.map.map (mapOf h'.maps) = nv.2.map.map (mapOf h.maps) := by
+    cases hm : nv.2.map with
+    | none => rfl
+    | some id =>
+      simp only [Option.map_some]
+      rw [mapOf_fr fr.maps (vin.2.2 id hm)]
+  rw [e1, e2, e3]
+
+theorem obsChain_congr {h h' : Heap} (fr : HeapFr h.sizes h h') (wf : ∀ o ∈ h.scopes, ScopeIn h o) :
+    ∀ (fuel : Nat) (ref : PRef), (∀ id, ref = .ov id → id < h.scopes.length) →
+      obsChain h' fuel ref = obsChain h fuel ref := by
+  intro fuel
+  induction fuel with
+  | zero => intro ref _; rfl
+  | succ fuel ih =>
+    intro ref href
+    cases ref with
+    | nil => rfl
+    | base => rfl
+    | ov id =>
+      have hid := href id rfl
+      simp only [obsChain]
+      rw [fr.scopes.getElem? hid]
+      cases ho : h.scopes[id]? with
+      | none => rfl
+      | some o =>
+        have hmem : o ∈ h.scopes := List.mem_of_getElem? ho
+        have sin := wf o hmem
+        simp only
+        rw [ih o.parent sin.2]
+        have hv : (o.values.getD []).map (obsVar h') = (o.values.getD []).map (obsVar h) := by
+          apply List.map_congr_left
+          intro nv hnv
+          exact obsVar_congr fr rfl nv (sin.1 nv hnv)
+        rw [hv]
+
+theorem observe_congr {p : Runner} {h h' : Heap} (wf : WF p h) (fr : HeapFr h.sizes h h') :
+    observe p h' = observe p h := by
+  obtain ⟨wsc, wenv, wpar, wds, wfn, wal⟩ := wf
+  unfold observe
+  rw [obsChain_congr fr wsc (p.env + 2) (.ov p.env) (by intro id hid; cases hid; exact wenv)]
+  rw [cells_fr p.params fr.strs wpar, cells_fr p.dirStack fr.strs wds]
+  have e1 : p.funcs.map (mapOf h'.fmaps) = p.funcs.map (mapOf h.fmaps) := by
+    cases hm : p.funcs with
+    | none => rfl
+    | some id => simp only [Option.map_some]; rw [mapOf_fr fr.fmaps (wfn id hm)]
+  have e2 : p.alias.map (mapOf h'.amaps) = p.alias.map (mapOf h.amaps) := by
+    cases hm : p.alias with
+    | none => rfl
+    | some id => simp only [Option.map_some]; rw [mapOf_fr fr.amaps (wal id hm)]
+  rw [e1, e2]
+
+/-- The core of the isolation theorems: frame + observation congruence along subshell and run. -/
+theorem childRun_observe {fx : Bool} {g : Grows} {h : Heap} {p : Runner} {bg : Bool} {ops : List Op}
+    {c x : Heap × Runner} (wf : WF p h) (hs : subshell g h p bg = some c)
+    (safe : fx = true ∨ (fx = false ∧ SafeRun h.sizes g c.1 c.2 ops))
+    (hr : run fx g c.1 c.2 ops = some x) : observe p x.1 = observe p h := by
+  have s := subshell_inv hs
+  have r := run_inv ops s.2 safe hr
+  exact observe_congr wf (s.1.trans r.1)
+
 end ShVerif.C27
